@@ -23,11 +23,22 @@ var (
 // retention policy and database - subscriptions and continuous queries of
 // db0.rp0 - so that lists of several entries get built and entries other than
 // the last removed.
-type Bias struct{ Lists bool }
+//
+// A run with Owners set spends half of its commands on the owner lists of the
+// shards of db0.rp0 (replication 2 over up to four data nodes, so that the
+// round-robin assignment wraps and lists such as [3 1] arise): copies to nodes
+// that are or are not owners yet, removals, and deletions of data nodes.
+type Bias struct{ Lists, Owners bool }
 
 // GenBias draws the tilt of a run.
 func GenBias(t *rapid.T, l string) Bias {
-	return Bias{Lists: rapid.IntRange(0, 3).Draw(t, l+".lists") == 0}
+	switch rapid.IntRange(0, 5).Draw(t, l+".tilt") {
+	case 0:
+		return Bias{Lists: true}
+	case 1:
+		return Bias{Owners: true}
+	}
+	return Bias{}
 }
 
 // GenCmdBiased is GenCmd under a run's tilt.
@@ -47,6 +58,25 @@ func GenCmdBiased(t *rapid.T, l string, b Bias) Cmd {
 			return CmdCreateCQ("db0", "cq"+fmt.Sprint(n), fmt.Sprintf("CREATE CONTINUOUS QUERY cq%d ON db0 BEGIN SELECT mean(v) INTO m2 FROM m GROUP BY time(1h) END", n))
 		case k == 6:
 			return CmdDropCQ("db0", "cq"+fmt.Sprint(rapid.IntRange(0, 3).Draw(t, l+".cn")))
+		}
+	}
+	if b.Owners {
+		switch k := rapid.IntRange(0, 19).Draw(t, l+".ok"); {
+		case k < 2:
+			n := rapid.IntRange(0, 3).Draw(t, l+".dn")
+			return CmdCreateDataNode(fmt.Sprintf("d%d:8086", n), fmt.Sprintf("d%d:8088", n))
+		case k == 2:
+			return CmdCreateDatabase("db0", nil)
+		case k == 3:
+			return CmdCreateRP("db0", "rp0", 0, time.Hour, 2, true)
+		case k < 6:
+			return CmdCreateShardGroup("db0", "rp0", t2000+int64(rapid.IntRange(0, 3).Draw(t, l+".hour"))*int64(time.Hour))
+		case k < 9:
+			return CmdCopyShardOwner(uint64(rapid.IntRange(1, 8).Draw(t, l+".shard")), uint64(rapid.IntRange(1, 5).Draw(t, l+".node")))
+		case k == 9:
+			return CmdRemoveShardOwner(uint64(rapid.IntRange(1, 8).Draw(t, l+".shard")), uint64(rapid.IntRange(1, 5).Draw(t, l+".node")))
+		case k == 10:
+			return CmdDeleteDataNode(uint64(rapid.IntRange(1, 5).Draw(t, l+".node")))
 		}
 	}
 	return GenCmd(t, l)
